@@ -35,6 +35,35 @@ def _mod(name):
     return importlib.import_module("harness.props." + name)
 
 
+PFAMILY = [
+    ["bin", "*", ["param", "p"], ["var", "x"]],
+    ["bin", "*", ["var", "x"], ["param", "p"]],
+    ["bin", "+", ["bin", "*", ["param", "p"], ["var", "x"]], ["bin", "*", ["param", "q"], ["var", "y"]]],
+    ["bin", "+", ["bin", "*", ["param", "p"], ["var", "x"]], ["bin", "*", ["var", "y"], ["var", "y"]]],
+    ["bin", "*", ["bin", "*", ["param", "p"], ["var", "x"]], ["var", "y"]],
+    ["bin", "-", ["bin", "*", ["var", "x"], ["var", "x"]], ["bin", "*", ["param", "q"], ["var", "x"]]],
+    ["un", "exp", ["bin", "*", ["param", "p"], ["var", "x"]]],
+]
+
+
+@st.composite
+def param_family_case(draw):
+    """models that differ ONLY in their parameter values: same names, same structure, no literal constants"""
+    env = {"scalars": [{"name": "x"}, {"name": "y"}], "vectors": [], "matrices": [],
+           "params": [{"name": "p", "value": draw(st.sampled_from([0.5, 1.0, 2.0, -1.5, 3.0, 0.4, 10.0]))},
+                      {"name": "q", "value": draw(st.sampled_from([0.5, 1.0, 2.0, -1.5, 3.0]))}]}
+    recipe = draw(st.sampled_from(PFAMILY))
+    pts = draw(gen.points(["x", "y"], k=3))
+    part = draw(st.sampled_from(["c01", "c02", "c03"]))
+    if part == "c01":
+        return [part, {"env": env, "expr": recipe, "order": ["x", "y"], "stratum": "decl", "points": pts, "config": "default",
+                       "newp": {"p": draw(st.sampled_from([0.25, 3.0])), "q": 1.0}}]
+    if part == "c02":
+        return [part, {"env": env, "expr": recipe, "wrt": draw(st.sampled_from(["x", "y"])), "points": pts, "config": "default"}]
+    return [part, {"env": env, "exprs": [recipe], "strata": ["general"], "order": ["x", "y"], "vstratum": "decl", "points": pts,
+                   "config": "default"}]
+
+
 @st.composite
 def cases(draw):
     old = gen.TINY
@@ -42,7 +71,11 @@ def cases(draw):
     try:
         k = draw(st.integers(1, 6))
         items = []
+        pfam = draw(st.integers(0, 2)) == 0
         for _ in range(k + 1):
+            if pfam and draw(st.booleans()):
+                items.append(draw(param_family_case()))
+                continue
             part = draw(st.sampled_from(PARTS))
             items.append([part, draw(_mod(part).strategy("quick"))])
         flood = draw(st.sampled_from([0, 0, 0, 1100, 4300]))
@@ -74,7 +107,10 @@ def sample_repr(case):
 
 
 def _flood(n):
+    """push n distinct expressions through the compile / gradient / degree caches (misses), then hammer ONE hot
+    expression with cache hits, then drop every reference and collect: ids of dead expressions get reused"""
     from optyx import Variable
+    from optyx.analysis import compute_degree
     from optyx.core.autodiff import gradient
     from optyx.core.compiler import compile_expression
     x, y = Variable("x"), Variable("y")
@@ -83,10 +119,16 @@ def _flood(n):
         e = x * (i + 2) + y
         compile_expression(e, [x, y])
         gradient(e * e, x)
-        _ = (e + 1).degree
+        compute_degree(e + 1)
+        compute_degree(e)
         if i % 7 == 0:
             keep.append(e)
-    del keep
+    hot = x * 3 + y
+    for _ in range(2 * n):
+        compute_degree(hot)
+        gradient(hot, x)
+        compile_expression(hot, [x, y])
+    del keep, hot
     gc.collect()
 
 
